@@ -747,6 +747,14 @@ impl<E: Effect, R: CommandReceiver<E>, S: EventSender<E>> Worker<E, R, S> {
             .get_process(process_id)
             .ok_or(EnvironmentError::ProcessNotFound(process_id))?;
 
+        // Compaction re-indexes the bindings of a process that sleeps between lines. A client that
+        // enters a line while the previous one is still running asks for it too early: that
+        // line's locals are live (its later stores and loads use the current indices), so leave
+        // them alone - the new line is not started either (see `resume_process`).
+        if process.result.is_none() {
+            return Ok(());
+        }
+
         let mut new_locals = Vec::with_capacity(keep_indices.len());
         for &index in &keep_indices {
             match process.locals.get(index) {
